@@ -13,6 +13,28 @@ CONN_NOTE = (NOTE_COMMON + " Connection model: packets are seen through a view (
              "state digest, events and return values on every sampled history (C05's projection); each property compares its own projection.")
 
 CHECKS = {
+ "C08": dict(
+  text="Coq theorems, Closed under the global context, for every state whose id allocator satisfies the representation invariant that C20 "
+       "proves is maintained: acquire returns the LEAST free id (not in use before, in use after, nothing else touched, no event) and reports "
+       "exhaustion only when no id in 1..max is free; register succeeds exactly for a free in-range id; release is total for every id value "
+       "(0, out of range, free, in use) and announces the release exactly when it turns an in-use id free. PARTIAL (C08_partial): the "
+       "per-call accounting 'announced releases = ids that turn free' for every other call (sends, acks, refusals, close, resume) and the "
+       "no-leak-on-close clause are decided by the monitor (in-use set from the hook, ghost of application-held ids) on the "
+       "implementation's traces and by the projection correspondence, not yet by theorems.",
+  ref="DESIGN.md §3 C08",
+  note=CONN_NOTE + " Ownership ghost: a success PUBREC that the library does not answer with PUBREL itself makes the application responsible for the id.",
+  technique="Coq proofs of the id API on top of the C20 allocator refinement + ownership-ghost monitor + differential correspondence"),
+ "C12": dict(
+  text="Coq theorems, Closed under the global context, for every state and every M: the vacancy getter is M minus the counter saturating at "
+       "zero (never wraps or panics); a QoS>0 PUBLISH arriving when the peer already has the announced maximum outstanding is answered "
+       "with 'Receive Maximum exceeded' (DISCONNECT 0x93 + close when established) and not delivered, and accepted ones keep the "
+       "outstanding set within the maximum; a refusal at the limit sends nothing and leaves the counter untouched. PARTIAL (C12_partial): "
+       "the invariant 'counter = number of incomplete outbound exchanges of this connection incl. retransmitted ones' over all histories "
+       "is decided by the monitor (ghost set of open exchanges from operations/events vs the implementation's counter and vacancy) and "
+       "the correspondence, not yet by a theorem; known finding F-12b is reported as KNOWN-FINDING.",
+  ref="DESIGN.md §3 C12, §4 F-12b",
+  note=CONN_NOTE,
+  technique="Coq per-step proofs + ghost-multiset monitor + differential correspondence"),
  "C15": dict(
   text="Coq theorems, Closed under the global context, for EVERY state and API call of the connection model and every history: replaying "
        "the timer reset/cancel requests of the returned events over the connection's timer flags (after clearing the flag of an expired timer) "
